@@ -35,6 +35,21 @@ class VLoop(asyncio.BaseEventLoop):
     def is_running(self):
         return True
 
+    def run_in_executor(self, executor, func, *args):
+        """No real threads on the virtual loop (they would wake it from outside the explorer's control): the function runs inline and
+        its result arrives one loop iteration later — still an await point at which other tasks can run."""
+        fut = self.create_future()
+        try:
+            res = func(*args)
+        except BaseException as e:  # noqa: BLE001 - delivered to the awaiting coroutine, as an executor would
+            self.call_soon(lambda: fut.done() or fut.set_exception(e))
+        else:
+            self.call_soon(lambda: fut.done() or fut.set_result(res))
+        return fut
+
+    def call_soon_threadsafe(self, callback, *args, context=None):
+        return self.call_soon(callback, *args, context=context)
+
     # -- explorer primitives -----------------------------------------------------------------
     def _clean_scheduled(self):
         while self._scheduled and self._scheduled[0]._cancelled:
@@ -42,7 +57,7 @@ class VLoop(asyncio.BaseEventLoop):
             h._scheduled = False
 
     def n_ready(self):
-        return sum(1 for h in self._ready if not h._cancelled)
+        return sum(1 for h in list(self._ready) if not h._cancelled)
 
     def next_deadline(self):
         self._clean_scheduled()
@@ -221,8 +236,9 @@ class FakeProc:
 class PoolWorld:
     """Owns the loop, the fake process table and the patching of asyncio.create_subprocess_shell."""
 
-    def __init__(self, start_failures=(), payloads=None, stubborn=()):
+    def __init__(self, start_failures=(), payloads=None, stubborn=(), start_exc="oserror"):
         self.stubborn = set(stubborn)
+        self.start_exc = start_exc  # how process creation fails: an OSError (missing working directory) or a ValueError (NUL in the script)
         self.loop = VLoop()
         self.procs = []
         self.events = []
@@ -240,6 +256,8 @@ class PoolWorld:
         tag = script.strip().split()[-1] if script.strip() else "?"
         if tag in self.start_failures:
             self.events.append(("start-failure", tag))
+            if self.start_exc == "value":
+                raise ValueError("embedded null byte")
             raise FileNotFoundError(2, "No such file or directory", cwd)
         p = FakeProc(self, FAKE_PID_BASE + len(self.procs), script, cwd, tag)
         out, err = self.payloads.get(tag, (b"", b""))
